@@ -15,6 +15,10 @@ constexpr int D = HM_D;
 using T = instr::E;
 constexpr int DFLT = 0;                       // value-initialised tracked element
 static char const* const ELEM = "tracked";
+#elif HM_ELEM == 2
+using T = instr::Q;
+constexpr int DFLT = 0;                       // non-trivial default constructor, trivial destructor: must be value-initialised (a skipped construction shows the allocator's pre-fill)
+static char const* const ELEM = "nontrivial-ctor-trivial-dtor";
 #else
 using T = int;
 constexpr int DFLT = instr::PREFILL_INT;      // trivially default constructible: the library must not write; the allocator's pre-fill shows through
